@@ -46,6 +46,7 @@ struct Scen{
     int lat = 0;                    // 0 none, 1 one slow thread, 2 random, 3 one slow point, 4 yield
     int sched = 0;                  // 0 none, 1 yield, 2 sleep, 3 mixed with long stalls
     int preload = 0;                // load the initial points before the call
+    int eager = 1000;               // completed samples are loaded one by one below this many loaded points (library constant, lowered through the guarded hook)
     int guess = 0;                  // initial guess template parameter
     int ctype = 0;                  // anisotropic variants: 0 = weights overload, 1 = output overload
     int threads = 3, overwrite = 0, vecsig = 0;   // loadNeededValues
@@ -355,9 +356,10 @@ static void run_scenario(Scen const &s){
     }
     init += "]";
     long long bcap = (s.budget < 0 || s.budget > 1000000) ? 1000000 : s.budget;
-    { char b[400];
-      snprintf(b, sizeof(b), "{\"e\":\"Reset\",\"mode\":\"%s\",\"nw\":%d,\"budget\":%lld,\"batch\":%d,\"par\":%s,\"guess\":%s,\"fam\":\"%s\",\"init\":%s}",
-               s.mode.c_str(), std::max(1, s.jobs), bcap, std::max(1, s.batch), (s.mode == "par") ? "true" : "false", s.guess ? "true" : "false", s.fam.c_str(), init.c_str());
+    { std::vector<char> bb(init.size() + 400); char *b = bb.data();
+      TasGrid::VerifHooks::eagerLoadThreshold().store(s.eager);
+      snprintf(b, bb.size(), "{\"e\":\"Reset\",\"mode\":\"%s\",\"nw\":%d,\"budget\":%lld,\"batch\":%d,\"par\":%s,\"guess\":%s,\"fam\":\"%s\",\"eager\":%d,\"init\":%s}",
+               s.mode.c_str(), std::max(1, s.jobs), bcap, std::max(1, s.batch), (s.mode == "par") ? "true" : "false", s.guess ? "true" : "false", s.fam.c_str(), s.eager, init.c_str());
       std::lock_guard<std::mutex> lock(logm); put_locked(b); }
 
     auto model = [&](std::vector<double> const &x, std::vector<double> &y, size_t tid)->void{
@@ -426,7 +428,7 @@ int main(int argc, char **argv){
             else if (k == "crit") s.crit = atoi(v.c_str()); else if (k == "tolexp") s.tolexp = atoi(v.c_str());
             else if (k == "out") s.out = atoi(v.c_str()); else if (k == "limit") s.limit = atoi(v.c_str());
             else if (k == "fmodel") s.fmodel = atoi(v.c_str()); else if (k == "lat") s.lat = atoi(v.c_str());
-            else if (k == "sched") s.sched = atoi(v.c_str()); else if (k == "preload") s.preload = atoi(v.c_str());
+            else if (k == "sched") s.sched = atoi(v.c_str()); else if (k == "preload") s.preload = atoi(v.c_str()); else if (k == "eager") s.eager = atoi(v.c_str());
             else if (k == "guess") s.guess = atoi(v.c_str()); else if (k == "ctype") s.ctype = atoi(v.c_str());
             else if (k == "threads") s.threads = atoi(v.c_str()); else if (k == "overwrite") s.overwrite = atoi(v.c_str());
             else if (k == "vecsig") s.vecsig = atoi(v.c_str()); else if (k == "seed") s.seed = (unsigned) atoll(v.c_str());
